@@ -16,32 +16,19 @@ Local Open Scope N_scope.
    element to the first, UnregisterTargets / CancelWaitingSources detaching before resuming,
    the timer with its backward scan and dirty flag - observes exactly what the specification
    (a set of registrations with sequence numbers, a due-time bag) observes: the same prints
-   in the same order, idle, script and thread counts, RegisterSize of every object and name -
-   up to one thing: the result of a waitthread whose callee was killed, which the model (like
-   the engine) shows as an unresolved pointer and the specification as NIL ([clean_obs]).
+   in the same order (with the results of waitthread), idle, script and thread counts,
+   RegisterSize of every object and name.
    That the fuel of the interpreter suffices is part of [quiet], not proved. *)
 Theorem C07_engine_refines_the_registration_set_where_no_cancelled_registration_is_met :
-  forall ops : list op,
-    Forall quiet (spec_run ops) -> map (option_map clean_obs) (run ops) = spec_run ops.
+  forall ops : list op, Forall quiet (spec_run ops) -> run ops = spec_run ops.
 Proof. exact run_refines_spec_where_quiet. Qed.
 Print Assumptions C07_engine_refines_the_registration_set_where_no_cancelled_registration_is_met.
 
-(* ... and literally the same observations when no such result is printed *)
-Theorem C07_engine_equals_the_specification_where_quiet_and_no_unresolved_result_is_printed :
-  forall ops : list op,
-    Forall quiet (spec_run ops) -> Forall no_ptr (run ops) -> run ops = spec_run ops.
-Proof. exact run_eq_spec_where_quiet. Qed.
-Print Assumptions C07_engine_equals_the_specification_where_quiet_and_no_unresolved_result_is_printed.
-
 (* The unconditional statement `forall ops, run ops = spec_run ops` is FALSE of the faithful
-   model: the two recorded findings. *)
+   model: the recorded finding C07-stale-wake. *)
 Theorem C07_run_refines_spec_refuted_by_stale_wake : exists ops, run ops <> spec_run ops.
 Proof. exact run_refines_spec_refuted_by_stale_wake. Qed.
 Print Assumptions C07_run_refines_spec_refuted_by_stale_wake.
-
-Theorem C07_run_refines_spec_refuted_by_unresolved_result : exists ops, run ops <> spec_run ops.
-Proof. exact run_refines_spec_refuted_by_unresolved_result. Qed.
-Print Assumptions C07_run_refines_spec_refuted_by_unresolved_result.
 
 (* The interpreter step by step: from related tables every task of the interpreter (one task per
    C++ function, woken threads running nested) ends in related tables and the SAME engine state,
@@ -163,6 +150,31 @@ Theorem C07_the_endon_loop_destroys_every_thread_of_the_end_list :
 Proof. exact (@endon_loop_destroys_every_thread). Qed.
 Print Assumptions C07_the_endon_loop_destroys_every_thread_of_the_end_list.
 
+(* ... over SEVERAL names per object: `o notify n` destroys every thread on the end list of
+   (o, n); when that is done (o, n) has no end list left and the end lists of every other name
+   of o and of every other object are untouched - a thread that said `endon` under another
+   name stays registered and dies by its own name.  (The C++ frees the whole per-object map
+   exactly when its last name is removed; the model keeps one table keyed by (listener, name),
+   where that is the absence of keys.) *)
+Theorem C07_notify_destroys_its_end_list_and_keeps_the_end_lists_of_other_names :
+  forall (T : Type) (P : prims T) f o n x s r,
+    WF s -> (forall w, In (LThr w) (look (etab s) (LO o, n)) -> w < ntid s) ->
+    go P (S f) (KUnreg (LO o) n) x s = Some r ->
+    exists x2 s2,
+      go P f (KKillList (rev (look (etab s) (LO o, n)))) x (set_etab s (tdel (etab s) (LO o, n))) = Some (x2, s2) /\
+      (forall w, In (LThr w) (look (etab s) (LO o, n)) -> alive (th s2 w) = false) /\
+      look (etab s2) (LO o, n) = [] /\
+      (forall o' m, (o', m) <> (o, n) -> look (etab s2) (LO o', m) = look (etab s) (LO o', m)) /\
+      (let '(x3, ws) := p_detach P (LO o) n x2 in go P f (KWakeList ws n) x3 s2) = Some r.
+Proof. exact (@notify_destroys_its_end_list_and_keeps_the_others). Qed.
+Print Assumptions C07_notify_destroys_its_end_list_and_keeps_the_end_lists_of_other_names.
+
+(* deleting threads never touches the end list of a script object *)
+Theorem C07_deleting_threads_keeps_the_end_lists_of_objects :
+  forall (T : Type) (P : prims T) f k x s, deleting k -> Se s (go P f k x s).
+Proof. exact (@Se_go). Qed.
+Print Assumptions C07_deleting_threads_keeps_the_end_lists_of_objects.
+
 Theorem C07_deleting_a_thread_destroys_it :
   forall (T : Type) (P : prims T) f t x s x' s',
     WF s -> go P f (KKill t) x s = Some (x', s') -> WF s' /\ ntid s <= ntid s' /\ alive (th s' t) = false.
@@ -188,6 +200,57 @@ Theorem C07_a_destroyed_thread_is_not_woken :
     go P (S f) (KWakeList (LThr w :: l) n) x s = go P f (KWakeList l n) x s.
 Proof. exact (@destroyed_thread_is_not_woken). Qed.
 Print Assumptions C07_a_destroyed_thread_is_not_woken.
+
+(* waitthread_after_callee_end_with_result.  The caller holds a registration on its callee
+   under the empty name and the callee's pending result.  (1) `end v` / the end of the program
+   stores the value (NIL without one) in the caller's variable and only then deletes the thread;
+   (2) deleting a thread - the only way its Listener destructor, which releases the threads
+   registered on it, gets to run - first destroys it, and resolves the pending result of an
+   idle (blocked, i.e. killed) callee to NIL before the destructor runs; a callee that is
+   killed while it executes resolves it when its Execute returns; (3) the caller's
+   registration is taken out of the set by nothing but the callee's own notify/removal or the
+   caller's own withdrawal.  (That the released caller runs only after an executing killed
+   callee has returned rests on the outermost-execution rule of ExecuteRunning and is
+   covered by the refinement theorem and the differential runs, not by a separate lemma.) *)
+Theorem C07_end_delivers_the_result_before_the_thread_is_deleted :
+  forall (T : Type) (P : prims T) f w v x s,
+    go P (S f) (KEnd w v) x s =
+    go P f (KKill w) x (resolve s w (match v with Some z => RInt z | None => RNil end)).
+Proof. exact (@end_delivers_the_result_then_deletes). Qed.
+Print Assumptions C07_end_delivers_the_result_before_the_thread_is_deleted.
+
+Theorem C07_a_resolved_result_reaches_the_waitthread_caller :
+  forall s w c v,
+    retto (th s w) = Some c -> rreg (th s c) = RPtr w -> rreg (th (resolve s w v) c) = v.
+Proof. exact resolve_delivers. Qed.
+Print Assumptions C07_a_resolved_result_reaches_the_waitthread_caller.
+
+Theorem C07_the_destructor_that_releases_the_caller_runs_on_a_destroyed_callee :
+  forall (T : Type) (P : prims T) f t x s r,
+    WF s -> alive (th s t) = true -> go P (S f) (KKill t) x s = Some r ->
+    exists x2 s2 x3 s3,
+      let sd := match vst (th s t) with
+                | VIdling => resolve (remove_from_class s2 (grp (th s t))) t RNil
+                | _ => remove_from_class s2 (grp (th s t))
+                end in
+      WF sd /\ alive (th sd t) = false /\
+      go P f (KDtor (LThr t)) x2 sd = Some (x3, s3) /\
+      r = (x3, if opt_eqb (cur s3) t then set_cur s3 None else s3).
+Proof. exact (@delete_runs_the_destructor_on_a_destroyed_thread). Qed.
+Print Assumptions C07_the_destructor_that_releases_the_caller_runs_on_a_destroyed_callee.
+
+Theorem C07_a_registration_is_taken_out_only_through_its_own_listener_or_thread :
+  (forall src n x r, In r (regs x) -> rsrc r <> src ->
+     exists r', In r' (regs (fst (a_detach src n x))) /\
+                rseq r' = rseq r /\ rw r' = rw r /\ rsrc r' = rsrc r /\ rn r' = rn r) /\
+  (forall src x r, In r (regs x) -> rsrc r <> src -> In r (regs (fst (a_detach_all src x)))) /\
+  (forall w x r, In r (regs x) -> rw r <> w -> In r (regs (fst (a_cancel_rest w (fst (a_cancel0 w x)))))).
+Proof.
+  exact (conj registration_survives_other_listeners
+        (conj (fun src x r H1 H2 => proj2 (proj2 (removal_destroys_exactly_the_waiters src x)) r H1 H2)
+              registration_survives_other_withdrawals)).
+Qed.
+Print Assumptions C07_a_registration_is_taken_out_only_through_its_own_listener_or_thread.
 
 (* the interpreter's fuel: a result obtained with some fuel is the result with any larger fuel
    (the particular amount [fuel_for] only decides WHETHER a result is obtained) *)
@@ -263,6 +326,24 @@ Example C07_history_example :
   /\ run ops = spec_run ops.
 Proof. vm_compute. split; reflexivity. Qed.
 
+(* endon under three names on one object: threads 1, 2, 3 die by a, b, c respectively and by
+   nothing else: after `notify a` and `notify b` only thread 3 is left (the notifier has ended)
+   and prints 31 when its wait ends; the second history notifies c and a: thread 2 is left *)
+Example C07_endon_names_example :
+  let prog ns :=
+    [ OStart ([ ISpawn 0;
+                IThread [IEndOn 0 NA; IPrint 10; IWait 3; IPrint 11];
+                IThread [IEndOn 0 NB; IPrint 20; IWait 3; IPrint 21];
+                IThread [IEndOn 0 NC; IPrint 30; IWait 3; IPrint 31] ] ++ ns);
+      OAdvance 5; OExecute ] in
+  map (option_map (fun o => (prints o, nthreads o))) (run (prog [INotify 0 NA; IPrint 50; INotify 0 NB; IPrint 51])) =
+    [ Some ([(1, PM 10); (2, PM 20); (3, PM 30); (0, PM 50); (0, PM 51)], 1%nat); Some ([], 1%nat);
+      Some ([(3, PM 31)], 0%nat) ] /\
+  map (option_map (fun o => (prints o, nthreads o))) (run (prog [INotify 0 NC; IPrint 50; INotify 0 NA; IPrint 51])) =
+    [ Some ([(1, PM 10); (2, PM 20); (3, PM 30); (0, PM 50); (0, PM 51)], 1%nat); Some ([], 1%nat);
+      Some ([(2, PM 21)], 0%nat) ].
+Proof. vm_compute. split; reflexivity. Qed.
+
 (* The stale wake-up (finding C07-stale-wake): model (= engine) prints 4 although (o0, c) was
    never notified; in the specification thread 2 stays blocked on (o0, c) and the flag is up. *)
 Example C07_stale_wake_example :
@@ -274,10 +355,11 @@ Example C07_stale_wake_example :
             [0; 0; 1; 0; 0; 0; 0; 0; 0]%nat, true) ].
 Proof. vm_compute. split; reflexivity. Qed.
 
-(* The unresolved result (finding C07-unresolved-result) *)
-Example C07_unresolved_result_example :
-  map (option_map prints) (run ptr_witness) = [ Some []; Some [(0, PR RPtr)]; Some [] ] /\
-  map (option_map prints) (spec_run ptr_witness) = [ Some []; Some [(0, PR RNil)]; Some [] ].
+(* Regression (former finding C07-unresolved-result): the callee is killed by its endon, the
+   caller proceeds when the notifier's host call runs the due threads and prints NIL; model and specification agree. *)
+Example C07_killed_callee_example :
+  map (option_map prints) (run killed_callee_witness) = [ Some []; Some [(0, PR RNil)]; Some [] ] /\
+  run killed_callee_witness = spec_run killed_callee_witness.
 Proof. vm_compute. split; reflexivity. Qed.
 
 (* a notify of the specification: registrations 0..3 on (o0, a) by threads 5, 6, 5 (again) and
